@@ -103,8 +103,14 @@ func mentionedConsts(info *types.Info, body ast.Node, g *constGroup) map[*types.
 			}
 		case *ast.BinaryExpr:
 			if x.Op == token.EQL || x.Op == token.NEQ {
-				match(x.X)
-				match(x.Y)
+				// a literal only stands for a constant of the group when the value it is
+				// compared with can be of the group's type ("delete" == Mutator is not an operation)
+				if literalCompatible(info, x.Y, g) {
+					match(x.X)
+				}
+				if literalCompatible(info, x.X, g) {
+					match(x.Y)
+				}
 			}
 		case *ast.CompositeLit:
 			for _, el := range x.Elts {
@@ -368,4 +374,24 @@ func (p *Program) siteNodesOf(pkgrel string, root *ssa.Function) []ast.Node {
 		})
 	}
 	return out
+}
+
+// literalCompatible: can a comparison with `other` be about a constant of group g?
+// False when other has a named type different from the type of the group's constants.
+func literalCompatible(info *types.Info, other ast.Expr, g *constGroup) bool {
+	tv, ok := info.Types[other]
+	if !ok || tv.Type == nil || len(g.consts) == 0 {
+		return true
+	}
+	nt, isNamed := tv.Type.(*types.Named)
+	if !isNamed {
+		return true
+	}
+	gt, gNamed := g.consts[0].Type().(*types.Named)
+	if gNamed {
+		return types.Identical(nt, gt)
+	}
+	// the group's constants are plain strings: a value of a defined string type
+	// (Mutator, ConditionFunction, ...) belongs to another group
+	return false
 }
